@@ -510,6 +510,14 @@ func runCheck(prop, tier string, writeBaseline, verbose bool, t0 time.Time) int 
 	cr.solveAll()
 	groups := groupObls(cr.obls)
 	cr.vacuityGuard(groups)
+	// a channel declared never closed ('chan f open') that some function outside any contract closes:
+	// the assumption made at every receive from it is false - reported like a failed obligation
+	for _, w := range immutableWriters(cr.prog, cr.specs) {
+		if strings.Contains(w, "which is declared never closed") {
+			fn := strings.Fields(w)[0]
+			groups = append(groups, &oblGroup{Name: fn + "#immutable:close-of-open-channel", Kind: "immutable", Status: "failed", Solver: "scan"})
+		}
+	}
 
 	var base map[string]*BaselineEntry
 	_ = loadJSON(filepath.Join(verifDir, "baseline", "obligations.json"), &base)
@@ -758,6 +766,9 @@ func writeEvidence(cr *checkRun, prop, tier string, groups []*oblGroup, nClaimed
 		"pointer parameters of non-struct element type do not alias struct fields",
 	)
 	for _, w := range immutableWriters(cr.prog, cr.specs) {
+		if strings.Contains(w, "which is declared never closed") {
+			continue
+		}
 		if strings.Contains(w, "closes a channel") {
 			assumptions = append(assumptions, w)
 			continue
